@@ -633,6 +633,7 @@ func runOne(c *ctx, rc rCase, m *metrics.Metrics) rTrace {
 			n = len(lightIDs)
 		}
 		got := append([]int64{}, lightIDs[:n]...)
+		rec.add(rEv{K: "invocations", A: lightN.Load()}) // how many times the iteration function ran (whatever ids it saw)
 		sort.Slice(got, func(a, b int) bool { return got[a] < got[b] })
 		for k := 0; k < n; {
 			j := k
